@@ -37,6 +37,14 @@ class MonkeyPatchSpec:
 PatchSpec = Union[AssignSpec, MonkeyPatchSpec]
 
 
+def _owns_attribute(target: Any, attr: str) -> bool:
+    """Return whether ``attr`` lives in the target's own namespace (not inherited)."""
+    try:
+        return attr in vars(target)
+    except TypeError:
+        return True
+
+
 @contextmanager
 def apply_patches(specs: list[PatchSpec]) -> Iterator[None]:
     applied: list[Tuple[Any, str, Any]] = []
@@ -44,12 +52,17 @@ def apply_patches(specs: list[PatchSpec]) -> Iterator[None]:
         for s in specs:
             tgt = _resolve(s.target)
             orig = getattr(tgt, s.attr, _MISSING)
+            owned = _owns_attribute(tgt, s.attr)
             if isinstance(s, AssignSpec):
                 setattr(tgt, s.attr, s.value)
             else:  # MonkeyPatchSpec
                 new_val = s.make_value(None if orig is _MISSING else orig)
                 setattr(tgt, s.attr, new_val)
-            applied.append((tgt, s.attr, orig))
+            # An attribute that was only inherited (e.g. a subclass sharing its
+            # base's __call__) is restored by deleting the override again;
+            # re-assigning the looked-up value would pin it on the subclass -- or
+            # pin the base's tracing shim when the base was patched first.
+            applied.append((tgt, s.attr, orig if owned else _MISSING))
         yield
     finally:
         # unwind in reverse order
